@@ -95,7 +95,7 @@ def _c20(tier, seed):
                  validate_runs=["H_C20_paths(1,2,1,2)", "H_C20_paths(0,2,2,2)", "H_C20_joinchat(1,2)", "H_C20_hosts(0,8,2,0)", "H_C20_schemeless(5,1)"],
                  covers={"H_C20_joinchat": ["invite"]})]
 
-TL_HARNESS = ["harness/telegram/gen.go", "harness/telegram/num.go", "harness/telegram/c01.go"]
+TL_HARNESS = ["harness/telegram/gen.go", "harness/telegram/num.go", "harness/telegram/c01.go", "harness/telegram/c01c.go"]
 _REPO = os.environ.get("VERIF_REPO", "/repo")
 TL_OVERLAY = {"/repo/internal/encoding/tl/zz_verif_export.go": "harness/tl/export.go"}
 N_STRUCTS = 1168  # upper bound used to size sweeps; indices past the registry are trivial runs
@@ -111,6 +111,7 @@ def _sample(seed, n, k):
 def _c01(tier, seed):
     q = tier == "quick"
     runs = ["H_C01_enum(%d)" % k for k in range(N_ENUMS)]
+    runs += ["H_C01_container(%d,%d)" % (k, w) for k, w in ([(0, 1), (1, 3), (2, 3)] if q else [(0, 1), (1, 6), (2, 4), (3, 3)])]
     if q:
         for k in range(24):      # constructors with a shared flag bit: every single-member pattern
             for pat in range(0, 12):
@@ -154,7 +155,7 @@ N_DEFS = 1240
 
 def _c02(tier, seed):
     q = tier == "quick"
-    runs = []
+    runs = ["H_C02_container(%d,%d)" % (k, w) for k, w in ([(0, 1), (1, 3), (2, 3)] if q else [(0, 1), (1, 6), (2, 4), (3, 3)])]
     if q:
         for k in range(24):
             for pat in range(0, 12):
@@ -385,7 +386,7 @@ PROPS = {
         jobs=_c02,
         bounds={"quick": "as C01 quick, oracle = reference encoder driven by the schema text (regenerated from schemes/*.tl on every run): shared-bit constructors x 12 patterns, service objects, 120 seed-chosen constructors x 4 patterns; string headers for lengths 0..9, 250..258, 65534..65537, 2^24, 2^24+1",
                 "thorough": "all registered constructors x all single-member presence patterns, depth 2; strings 0..279, 2^24-4..2^24+5"},
-        outside="as C01; gzip_packed/msg_container (hand-written codecs); vectors longer than 2",
+        outside="as C01; gzip_packed (hand-written codec, see the known finding); vectors longer than 2",
         assumptions=["genschema.py (independent TL reader) and the reference encoder in harness/telegram/c02.go are the oracle", "pairing Go type <-> schema line is by constructor id (ids pinned by C13's ground obligations)"],
     ),
     "C13": dict(
@@ -397,9 +398,9 @@ PROPS = {
     ),
     "C01": dict(
         jobs=_c01,
-        bounds={"quick": "all enum members; every constructor with a shared flag bit x presence patterns {none, all, only-j, all-but-j}; all MTProto service objects; a greedy cover of the distinct field shapes (two constructors per combination of kind/element/conditional/bit-stored/shared) x 4 patterns; 100 seed-chosen constructors x patterns {none, all, only first, only second}; leaves symbolic (int/long/double bits, bool, strings and byte strings of length 0..4, vectors of 0..2, int128/int256 with 0..2 leading zero bytes), nested objects depth 1 with the smallest implementer; strings: every length 0..9, 250..258, 65534..65537 (PutMessage/PopMessage kernels), 2^24 and 2^24+1",
+        bounds={"quick": "all enum members; every constructor with a shared flag bit x presence patterns {none, all, only-j, all-but-j}; all MTProto service objects; msg_container with 0..2 messages (symbolic ids, seq_nos, bodies of 1..3 words); a greedy cover of the distinct field shapes (two constructors per combination of kind/element/conditional/bit-stored/shared) x 4 patterns; 100 seed-chosen constructors x patterns {none, all, only first, only second}; leaves symbolic (int/long/double bits, bool, strings and byte strings of length 0..4, vectors of 0..2, int128/int256 with 0..2 leading zero bytes), nested objects depth 1 with the smallest implementer; strings: every length 0..9, 250..258, 65534..65537 (PutMessage/PopMessage kernels), 2^24 and 2^24+1",
                 "thorough": "all registered constructors x all single-member patterns, depth 2 with 3 implementer variants; every string length 0..279, 2^24-4..2^24+5"},
-        outside="strings longer than 4 inside a full constructor (covered through the string kernels), nesting deeper than 2, vectors longer than 2, presence patterns that differ from none/all in more than one field, msg_container / gzip_packed (hand-written codecs: C15/C09), exact-consumption of trailing bytes",
+        outside="strings longer than 4 inside a full constructor (covered through the string kernels), nesting deeper than 2, vectors longer than 2, presence patterns that differ from none/all in more than one field, gzip_packed (its encoder is not implemented: known finding), exact-consumption of trailing bytes",
         assumptions=["reflect is modelled by the engine (validated against native reflect on the differential vectors)", "math/big.Int modelled as bit-vectors; Bytes() explored for 0..2 leading zero bytes"],
     ),
     "C20": dict(
